@@ -1080,7 +1080,7 @@ const KINDS: [Kind; 4] = [Kind::Roa, Kind::Aspa, Kind::Manifest, Kind::Generic];
 fn round_cases(w: &World, rng: &mut Rng, round: u64, rich: bool) -> Vec<Case> {
     let mut out: Vec<Case> = Vec::new();
     let key = 1 + (round as usize % 2); // EE key 1 or 2; 3/4 are "other" keys, 5 a foreign issuer
-    let sizes: Vec<usize> = vec![127, 128, 129, 255, 256, 257, 126, 130, 200, 254, 258, 300, 400, 1000, 5000];
+    let sizes: Vec<usize> = vec![127, 128, 129, 255, 256, 257, 126, 130, 200, 254, 258, 300, 400, 1000, 5000, 65000, 65535];
 
     // ---- head: cross-section
     for (i, k) in KINDS.iter().enumerate() {
